@@ -74,6 +74,13 @@ def len_le1_fact(g, origin, v):
     return False
 
 
+def len_gt1_contradiction(g, origin, v, le1):
+    """len(files) <= 1 is known and the same length test now answers the other way with no mutation in between: infeasible"""
+    if not le1 or v not in ("true", "false"):
+        return False
+    return len_le1_fact(g, origin, "false" if v == "true" else "true")
+
+
 def any_sync_closure(ctx, g, n):
     """`batch.iter().any(|w| w.sync)`: the closure's result is field `sync` of its argument."""
     t = g.term(n)
@@ -320,6 +327,8 @@ def run(ctx, rep):
             cn = origin_call(origin)
             if sync_true and no_sync_requested(ctx, g, origin, v):
                 return None      # dead by R04.5: every request has sync = true
+            if len_gt1_contradiction(g, origin, v, le1):
+                return None
             if len_le1_fact(g, origin, v):
                 le1 = True
             if files_empty_fact(g, cn, v):
